@@ -957,6 +957,61 @@ def gen_writer():
     return "\n".join(out) + "\n"
 
 
+def gen_read_entries():
+    """Gen/ReadEntry.lean: the scope dispatch of the read entry points (provider/src/read.rs): which
+    decoded kinds are accepted, which node method is called, which codes answer a wrong kind and an
+    undecodable scope, how `Ok(None)` is answered"""
+    src = strip_comments(strip_tests(read("provider/src/read.rs")))
+
+    def body(fn):
+        m = re.search(r"fn\s+%s\s*\(([^)]*)\)\s*->\s*(\w+)\s*\{" % fn, src)
+        if not m:
+            raise ExtractError("%s not found" % fn)
+        depth, i = 1, m.end()
+        while depth and i < len(src):
+            depth += {"{": 1, "}": -1}.get(src[i], 0)
+            i += 1
+        return re.sub(r"\s+", "", src[m.end():i - 1])
+
+    pats = {"NanBoxValueRef::Object{ptr:obj_ptr,..}": ("obj_ptr", False), "NanBoxValueRef::Object{ptr,..}": ("ptr", False),
+            "NanBoxValueRef::Array{ptr,len:_}|NanBoxValueRef::Object{ptr,len:_}": ("ptr", True)}
+    method = {"get_at_index": "Node.getAtIndex", "get_key_at_index": "Node.getKeyAtIndex", "get_object_property": "Node.getProp"}
+    out = ["-- REGENERATED by /verif/extract/extract.py from provider/src/read.rs; do not edit",
+           "import SfVerif.Model.Ctx", "namespace SfVerif.Gen", "open SfVerif SfVerif.Gen"]
+    for fn, lean, arg, extra, step in [
+            ("shopify_function_input_get_at_index", "getAtIndexGen", "index", "(i : Nat)", "(c.idxStep h)"),
+            ("shopify_function_input_get_obj_key_at_index", "getKeyAtIndexGen", "index", "(i : Nat)", "PStep.key"),
+            ("shopify_function_input_get_obj_prop", "getObjPropGen", "query", "(q : Bytes)", "PStep.val")]:
+        b = body(fn)
+        m = re.fullmatch(r"Context::with\(\|context\|\{letv=NanBox::from_bits\(scope\);matchv\.try_decode\(\)\{Ok\((.*?)\)=>\{(.*)\}"
+                         r"Ok\(_\)=>NanBox::error\(ErrorCode::(\w+)\)\.to_bits\(\),Err\(_\)=>NanBox::error\(ErrorCode::(\w+)\)\.to_bits\(\),\}\}\)", b)
+        if not m or m.group(1) not in pats:
+            raise ExtractError("%s: scope dispatch changed shape" % fn)
+        pvar, accept_arr = pats[m.group(1)]
+        inner = m.group(2)
+        if fn.endswith("obj_prop"):
+            pre = "letquery=unsafe{std::slice::from_raw_parts(ptras*constu8,len)};"
+            if not inner.startswith(pre):
+                raise ExtractError("%s: the query is no longer the (ptr, len) slice" % fn)
+            inner = inner[len(pre):]
+        mi = re.fullmatch(r"letvalue=matchLazyValueRef::mut_from_raw\(%s as_\)\{Ok\(value\)=>value,Err\(e\)=>returnNanBox::error\(e\)\.to_bits\(\),\};"
+                          r"matchvalue\.(\w+)\(%s,&context\.input_bytes,&context\.bump_allocator,\)\{(.*)\}".replace(" as_", "as_") % (pvar, arg), inner)
+        if not mi or mi.group(1) not in method:
+            raise ExtractError("%s: node operation changed shape: %s" % (fn, inner[:160]))
+        res = mi.group(2)
+        want_opt = "Ok(Some(value))=>value.encode().to_bits(),Ok(None)=>NanBox::null().to_bits(),Err(e)=>NanBox::error(e).to_bits(),"
+        want_plain = "Ok(value)=>value.encode().to_bits(),Err(e)=>NanBox::error(e).to_bits(),"
+        if res != (want_opt if mi.group(1) == "get_object_property" else want_plain):
+            raise ExtractError("%s: result mapping changed" % fn)
+        callarg = "i" if arg == "index" else "q"
+        out += ["/-- `%s` -/" % fn,
+                "def %s (c : Ctx) (s : Scope) %s : Ctx × RVal :=" % (lean, extra),
+                "  Ctx.dispatch c s %s ErrorCode_%s ErrorCode_%s" % ("true" if accept_arr else "false", m.group(3), m.group(4)),
+                "    (fun h => c.nodeOp h (fun n => %s c.input c.fuel n %s) %s)" % (method[mi.group(1)], callarg, step)]
+    out.append("end SfVerif.Gen")
+    return "\n".join(out) + "\n"
+
+
 FNS_HEADER = ["-- REGENERATED by /verif/extract/extract.py (rs2lean) from function bodies in /repo; do not edit",
               "import SfVerif.Gen.Consts", "import SfVerif.Gen.Enums", "namespace SfVerif.Gen"]
 
@@ -1088,7 +1143,8 @@ def main():
                                ("FnsLogs.lean", "fns-logs", gen_fns_logs),
                                ("FnsState.lean", "fns-state", gen_fns_state),
                                ("Markers.lean", "markers", gen_markers),
-                               ("WriterStep.lean", "writer", gen_writer)]:
+                               ("WriterStep.lean", "writer", gen_writer),
+                               ("ReadEntry.lean", "read-entries", gen_read_entries)]:
         try:
             text = gen()
             if write_if_changed(fname, text):
